@@ -28,6 +28,8 @@ S = lambda s: ('str', s)
 V = lambda n: ('var', n)
 
 PRELUDE = (('setreg', 'hue', N(120)), ('assign', 'x', N(7)), ('assign', 'nm', S('Lamp')),
+           # variables whose names differ from a register's only in case, or equal an internal register's name
+           ('assign', 'Hue', N(11)), ('assign', 'name', S('nv')), ('assign', 'result', N(13)), ('assign', 'power', N(17)),
            ('define', 'id', ('p',), (('return', V('p')),)))
 VALUES = [N(5), N(2.5), S('a b'), ('bin', '<', N(1), N(2)), ('reg', 'hue'), V('x'),
           ('bin', '*', N(3), N(4)), ('bin', '/', N(7), N(2)), ('call', 'id', (N(9),)), V('nm'),
@@ -55,7 +57,8 @@ def alphabet():
     out += [('printf', f, a) for f, a in (
         ('{}', (N(5),)), ('{} {}', (V('x'), S('q'))), ('{hue}', ()), ('{x}:{}', (N(2.5),)),
         ('{1} {0}', (N(1), N(2))), ('a\\nb', ()), ('{:>6}|', (V('x'),)), ('{nm:<6}|{:.2f}', (N(2.5),)),
-        ('end\\n', ()), ('{}|{nm}', (S('C:\\new'),)), ('{} {}', (N(1), N(2))))]
+        ('end\\n', ()), ('{}|{nm}', (S('C:\\new'),)), ('{} {}', (N(1), N(2))),
+        ('{Hue} {hue}', ()), ('{name}|{result}', ()), ('{power}:{}', (V('Hue'),)))]
     out.append(DEVICE)
     return out
 
